@@ -7,10 +7,8 @@
  "harness": "h_fp_verdict",
  "includes": ["e2fsck", "lib/support"],
  "static_keep": ["problem_table", "pr_latch_info", "prompt"],
- "replace": ["find_problem"],
- "defines": ["FP_FIND_PROBLEM_CONTRACT"],
  "unwind": 13,
- "cbmc_flags": ["--unwindset", "fp_setup.0:450,fp_setup.1:16,find_latch.0:13,fix_problem:2"],
+ "cbmc_flags": ["--unwindset", "fp_setup.0:450,fp_setup.1:16,find_latch.0:13,find_problem.0:450,h_fp_verdict.0:450,fix_problem:2"],
  "unwind_reason": "find_problem / find_latch scan the constant tables problem_table[] (FP_N entries, checked <= 448 by the harness) and pr_latch_info[] (12); the recursion of fix_problem (latch question, PR_AFTER_CODE) is unwound with unwinding assertions on, so the proof also shows that no chain in the real table is deeper than the bound",
  "functions": ["e2fsck/problem.c:fix_problem", "e2fsck/problem.c:find_problem", "e2fsck/problem.c:find_latch"],
  "assumes": ["problem_table[] and pr_latch_info[] keep their initialisers (static_keep): the statement is about the table of the current tree",
@@ -30,40 +28,49 @@
  */
 #include "fp_common.h"
 
-/* V1 + V2 + frame: for EVERY table entry, every option set, every e2fsck.conf, every mid-run state */
-void h_fp_verdict(void)
+/* V1 + V2 + frame: for EVERY table entry, every option set, every e2fsck.conf, every mid-run state.
+ * The entry is enumerated (constant index per copy) so that the symbolic executor sees constant table rows. */
+static void fp_verdict_one(struct fp_world *w, unsigned i)
 {
-	struct fp_world w;
-	struct e2fsck_problem *e;
+	struct e2fsck_problem *e = &problem_table[i];
 	int r;
 
-	LOAD_IN();
-	fp_setup(&w);
-	ASSUME(IN.idx < FP_N - 1);
-	e = &problem_table[IN.idx];
-	ASSUME(IN.code == e->e2p_code);
-
-	r = fix_problem(w.ctx, IN.code, &w.pctx);
+	r = fix_problem(w->ctx, e->e2p_code, &w->pctx);
 
 	/* reached only if fix_problem returned (PR_FATAL / PROMPT_ABORT+yes / preenhalt do not) */
 	CHECK(r == 0 || r == 1 || r == -1, "answer is no / yes / no-collate");
 	if (r == 0 && e->prompt != PROMPT_NONE && !(e->flags & PR_NO_OK)) {
 		REACH("declined a problem that counts");
-		CHECK(!(w.fs->flags & EXT2_FLAG_VALID),
+		CHECK(!(w->fs->flags & EXT2_FLAG_VALID),
 		      "V1: a declined problem whose entry lacks PR_NO_OK un-marks the filesystem valid (=> FSCK_UNCORRECTED)");
 	}
 	if (r != 0 && e->prompt != PROMPT_NONE && !(e->flags & PR_NOT_A_FIX)) {
 		REACH("accepted a fix");
-		CHECK(w.ctx->flags & E2F_FLAG_PROBLEMS_FIXED,
+		CHECK(w->ctx->flags & E2F_FLAG_PROBLEMS_FIXED,
 		      "V2: an accepted fix sets E2F_FLAG_PROBLEMS_FIXED unless the entry is PR_NOT_A_FIX");
 	}
 	/* frame of the verdict state */
-	CHECK((w.fs->flags | EXT2_FLAG_VALID) == (IN.fsflags | EXT2_FLAG_VALID) &&
-	      (!(IN.fsflags & EXT2_FLAG_VALID) ? !(w.fs->flags & EXT2_FLAG_VALID) : 1),
+	CHECK((w->fs->flags | EXT2_FLAG_VALID) == (IN.fsflags | EXT2_FLAG_VALID) &&
+	      (!(IN.fsflags & EXT2_FLAG_VALID) ? !(w->fs->flags & EXT2_FLAG_VALID) : 1),
 	      "fs->flags: only EXT2_FLAG_VALID may change, and only be cleared");
-	CHECK((w.ctx->flags | E2F_FLAG_PROBLEMS_FIXED) == (IN.ctxflags | E2F_FLAG_PROBLEMS_FIXED) &&
-	      ((IN.ctxflags & E2F_FLAG_PROBLEMS_FIXED) ? (w.ctx->flags & E2F_FLAG_PROBLEMS_FIXED) != 0 : 1),
+	CHECK((w->ctx->flags | E2F_FLAG_PROBLEMS_FIXED) == (IN.ctxflags | E2F_FLAG_PROBLEMS_FIXED) &&
+	      ((IN.ctxflags & E2F_FLAG_PROBLEMS_FIXED) ? (w->ctx->flags & E2F_FLAG_PROBLEMS_FIXED) != 0 : 1),
 	      "ctx->flags: only E2F_FLAG_PROBLEMS_FIXED may change, and only be set");
-	CHECK(w.ctx->options == IN.options, "options unchanged");
-	REACH("end");
+	CHECK(w->ctx->options == IN.options, "options unchanged");
+}
+
+void h_fp_verdict(void)
+{
+	struct fp_world w;
+	unsigned i;
+
+	LOAD_IN();
+	fp_setup(&w);
+	ASSUME(IN.idx < FP_N - 1);
+	for (i = 0; i < FP_N - 1; i++)
+		if (i == IN.idx) {
+			fp_verdict_one(&w, i);
+			REACH("end");
+			return;
+		}
 }
